@@ -101,7 +101,7 @@ type c05ObjCase struct {
 // c05ObjectCases: one script per way of raising an object that exists before the throw; the catch
 // clause reports identity, class, state and behaviour of what it received.
 func c05ObjectCases() []c05ObjCase {
-	const prelude = "<?php\nclass Ez extends Exception { public $tag = 0; function who() { return 'Ez#' . $this->tag; } }\nclass Ey extends Ez {}\n"
+	const prelude = "<?php\nclass Ez extends Exception { public $tag = 0; function who() { return 'Ez#' . $this->tag; } function fire() { throw $this; } static function sfire($x) { throw $x; } }\nclass Ey extends Ez {}\nclass Hold { public $e; static $se; }\nfunction giveBack($x) { return $x; }\n"
 	const report = "__obs(\"same\", $e === $o); __obs(\"class\", get_class($e)); __obs(\"io\", $e instanceof Ez); __obs(\"msg\", $e->getMessage()); try { __obs(\"tag\", $e->tag); } catch (Throwable $x) { __obs(\"!tag\", 1); } try { __obs(\"who\", $e->who()); } catch (Throwable $x) { __obs(\"!who\", 1); } try { $e->tag = 9; __obs(\"seen\", $o->tag); } catch (Throwable $x) { __obs(\"!seen\", 1); }"
 	mk := func(form, body string) c05ObjCase {
 		return c05ObjCase{Form: form, Src: prelude + "$o = new Ey('m');\n$o->tag = 5;\n" + body + "\n"}
@@ -113,6 +113,18 @@ func c05ObjectCases() []c05ObjCase {
 		mk("through-finally", "try { try { throw $o; } finally { $z = 1; } } catch (Throwable $e) { "+report+" }"),
 		mk("from-method", "class Th { function go($x) { throw $x; } }\ntry { (new Th())->go($o); } catch (Exception $e) { "+report+" }"),
 		mk("from-loop", "try { foreach ([1, 2] as $i) { if ($i == 2) { throw $o; } } } catch (Ez $e) { "+report+" }"),
+		// the operand of throw is something else than a plain variable
+		mk("throw-this", "try { $o->fire(); } catch (Ez $e) { "+report+" }"),
+		mk("throw-property", "$h = new Hold();\n$h->e = $o;\ntry { throw $h->e; } catch (Ez $e) { "+report+" }"),
+		mk("throw-static-property", "Hold::$se = $o;\ntry { throw Hold::$se; } catch (Ez $e) { "+report+" }"),
+		mk("throw-array-element", "$arr = [$o];\ntry { throw $arr[0]; } catch (Ez $e) { "+report+" }"),
+		mk("throw-call-result", "try { throw giveBack($o); } catch (Ez $e) { "+report+" }"),
+		mk("throw-ternary", "try { throw true ? $o : null; } catch (Ez $e) { "+report+" }"),
+		mk("throw-coalesce", "$nn = null;\ntry { throw $nn ?? $o; } catch (Ez $e) { "+report+" }"),
+		mk("from-static-method", "try { Ez::sfire($o); } catch (Ez $e) { "+report+" }"),
+		mk("from-closure", "$cl = function() use ($o) { throw $o; };\ntry { $cl(); } catch (Ez $e) { "+report+" }"),
+		mk("from-arrow-fn", "$af = fn() => throw $o;\ntry { $af(); } catch (Ez $e) { "+report+" }"),
+		mk("from-nested-function-calls", "function lvl2($x) { throw $x; }\nfunction lvl1($x) { lvl2($x); return 1; }\ntry { lvl1($o); } catch (Ez $e) { "+report+" }"),
 	}
 }
 
